@@ -25,11 +25,14 @@ func runC10(c *Ctx) {
 	ruleCancelPacket(c, p)
 	ruleWatch(c, p, roles, "C10")
 	ruleCancelError(c, p, roles)
+	ruleCancelBound(c, p, roles, "C10.cancel-bound")
+	ruleNoStrayGoroutine(c, p, roles, "C10.no-stray-goroutine")
 	ruleNoLeak(c, p, roles, "C10.leak")
 	ruleHandshakeWatchdog(c, p)
 	rulePacketDeadline(c, p, "C10.deadline")
 	ruleDeadlineDisarmed(c, p, "C10.disarm")
 	ruleTimeoutSentinel(c, p, "C10.sentinel")
+	ruleOptionDefaults(c, p, "C10.defaults")
 	ruleNoLockAcrossIO(c, p, "C10.lock-io")
 	ruleCloseMarks(c, p, "C10.close-marks")
 	c.R.Assumptions = append(c.R.Assumptions,
@@ -71,6 +74,22 @@ func ruleCancelPacket(c *Ctx, p *core.Program) {
 				}
 				n++
 				key := core.FuncName(fn) + "/buffer-literal"
+				// a buffer built by a helper and returned by value: judge the literal inside the helper
+				for _, ref := range *al.Referrers() {
+					if st, ok := ref.(*ssa.Store); ok && st.Addr == ssa.Value(al) {
+						if cl, ok := st.Val.(*ssa.Call); ok {
+							if g := core.StaticFn(cl); g != nil && g.Blocks != nil && pkgOf(g) != nil && pkgOf(g).Path() == core.PkgCh {
+								for _, gb := range g.Blocks {
+									for _, gi := range gb.Instrs {
+										if ga, ok := gi.(*ssa.Alloc); ok && core.IsNamed(ga.Type(), core.PkgProto, "Buffer") {
+											al = ga
+										}
+									}
+								}
+							}
+						}
+					}
+				}
 				// find store to its Buf field
 				bad := ""
 				for _, ref := range *al.Referrers() {
@@ -126,7 +145,17 @@ func ruleCancelPacket(c *Ctx, p *core.Program) {
 	// exactly one encode into the buffer in cancelQuery, of the constant Cancel code
 	enc := 0
 	okCode := false
+	// cancelQuery and the package-ch helpers it uses to build the packet (not the consumer, not Close)
+	var encCalls []ssa.CallInstruction
+	encCalls = append(encCalls, core.Calls(cq)...)
 	for _, call := range core.Calls(cq) {
+		if g := core.StaticFn(call); g != nil && g.Blocks != nil && pkgOf(g) != nil && pkgOf(g).Path() == core.PkgCh && !isBufferConsumer(g) && g.Name() != "Close" {
+			if _, isDefer := call.(*ssa.Defer); !isDefer {
+				encCalls = append(encCalls, core.Calls(g)...)
+			}
+		}
+	}
+	for _, call := range encCalls {
 		f := core.CalleeFunc(call)
 		if f == nil {
 			continue
@@ -975,4 +1004,131 @@ func ruleTimeoutSentinel(c *Ctx, p *core.Program, rule string) {
 	}
 	c.R.Count("durations derived from the read timeout["+cfg+"]", n)
 	c.R.Floor(rule, cfg, n, 1)
+}
+
+// ---- cancel-bound (C10 / C04): the Cancel write cannot be left without a bound by another goroutine
+func ruleCancelBound(c *Ctx, p *core.Program, r *doRoles, rule string) {
+	c.R.Rule(rule, "the write deadline of the connection is shared state: the sender goroutine of Do clears it (a deferred SetWriteDeadline(time.Time{}) in flush) concurrently with the cancel-watch, whose cancelQuery arms a one-second write deadline for the Cancel packet. When another goroutine root of Do can reach a disarming call, the Cancel write must not rely on that deadline alone: cancelQuery arms an independent bound before the write - a time.AfterFunc whose function closes the connection - so that Close is reached and Do returns within the grace period even if the deadline is cleared under it (peer not reading, sender stuck in Write)")
+	cfg := p.Cfg.Name
+	cq := p.Method(core.PkgCh, "Client", "cancelQuery")
+	if !c.must(p, "(*ch.Client).cancelQuery", cq != nil) {
+		return
+	}
+	reachesDisarm := func(root *ssa.Function) ssa.Instruction {
+		if root == nil {
+			return nil
+		}
+		for fn := range core.StaticReach(bodyOf(root), 4) {
+			if pkgOf(fn) == nil || pkgOf(fn).Path() != core.PkgCh || fn == cq {
+				continue
+			}
+			// closures deferred inside (the reset) are reached through MakeClosure by StaticReach
+			for _, call := range core.Calls(fn) {
+				k := isDeadlineSetter(call)
+				args := call.Common().Args
+				if (k == "SetWriteDeadline" || k == "SetDeadline") && len(args) > 0 && isZeroStruct(args[len(args)-1]) {
+					return call.(ssa.Instruction)
+				}
+			}
+		}
+		return nil
+	}
+	var other ssa.Instruction
+	who := ""
+	for name, root := range map[string]*ssa.Function{"sender": r.Sender, "receiver": r.Receiver} {
+		if in := reachesDisarm(root); in != nil {
+			other, who = in, name
+		}
+	}
+	key := core.FuncName(cq) + "/independent-bound"
+	if other == nil {
+		c.R.Ok(rule, key, cfg, p.Pos(cq.Pos()), "no other goroutine of Do can clear the write deadline")
+		return
+	}
+	// the write(s) in cancelQuery
+	var writes []ssa.Instruction
+	for _, call := range core.Calls(cq) {
+		if sf := core.StaticFn(call); sf != nil && pkgOf(sf) != nil && pkgOf(sf).Path() == core.PkgCh {
+			if core.ReachesCallee(sf, func(f *types.Func) bool { return f.Name() == "Write" }, 2) || sf.Name() == "flushBuf" {
+				writes = append(writes, call.(ssa.Instruction))
+			}
+		}
+	}
+	if len(writes) == 0 {
+		c.R.Unk(rule, key, cfg, p.Pos(cq.Pos()), "the Cancel write was not found in cancelQuery")
+		return
+	}
+	closesConn := func(f *ssa.Function) bool {
+		if f == nil || f.Blocks == nil {
+			return false
+		}
+		for g := range core.StaticReach(f, 2) {
+			for _, call := range core.Calls(g) {
+				cc := call.Common()
+				if cc.IsInvoke() && cc.Method.Name() == "Close" && core.IsNamed(cc.Value.Type(), "net", "Conn") {
+					return true
+				}
+			}
+		}
+		return false
+	}
+	var timers []ssa.Instruction
+	for _, call := range core.Calls(cq) {
+		f := core.CalleeFunc(call)
+		if f == nil || !core.IsFunc(f, "time", "AfterFunc") || len(call.Common().Args) != 2 {
+			continue
+		}
+		var tf *ssa.Function
+		switch x := call.Common().Args[1].(type) {
+		case *ssa.MakeClosure:
+			tf, _ = x.Fn.(*ssa.Function)
+		case *ssa.Function:
+			tf = x
+		}
+		if closesConn(tf) {
+			timers = append(timers, call.(ssa.Instruction))
+		}
+	}
+	ok := true
+	for _, w := range writes {
+		dom := false
+		for _, t := range timers {
+			if core.Dominates(t, w) {
+				dom = true
+			}
+		}
+		if !dom {
+			ok = false
+		}
+	}
+	if ok {
+		c.R.Ok(rule, key, cfg, p.Pos(cq.Pos()), "a timer that closes the connection is armed before the Cancel write")
+	} else {
+		c.R.Bad(rule, key, cfg, p.Pos(writes[0].Pos()), "the "+who+" goroutine can clear the connection's write deadline ("+p.Pos(other.Pos())+") after cancelQuery armed it: with a peer that is not reading, the Cancel write then blocks without any bound, Close is never reached and Do does not return")
+	}
+}
+
+// ---- no-stray-goroutine (C10): Do starts goroutines only through its errgroup
+func ruleNoStrayGoroutine(c *Ctx, p *core.Program, r *doRoles, rule string) {
+	c.R.Rule(rule, "no goroutine started by Do outlives it: in Do and every package-ch function reachable from it (the three goroutine bodies, sendInput, handlePacket, cancelQuery ...) there is no `go` statement - the goroutines of a query are exactly those registered with the errgroup, which Do waits for. A helper that runs a user callback in a goroutine of its own and selects on ctx.Done() returns while the callback is still running: it keeps touching the caller's columns after Do has returned")
+	cfg := p.Cfg.Name
+	n := 0
+	bad := false
+	for fn := range core.StaticReach(r.Do, 5) {
+		if pkgOf(fn) == nil || pkgOf(fn).Path() != core.PkgCh || isServerSide(fn) {
+			continue
+		}
+		n++
+		for _, b := range fn.Blocks {
+			for _, in := range b.Instrs {
+				if g, ok := in.(*ssa.Go); ok {
+					bad = true
+					c.R.Bad(rule, core.FuncName(fn)+"/go", cfg, p.Pos(g.Pos()), "a goroutine is started outside the errgroup of Do: nothing waits for it, so it can outlive the call (a user callback still running after Do returned the context's error)")
+				}
+			}
+		}
+	}
+	if !bad {
+		c.R.Ok(rule, core.FuncName(r.Do), cfg, p.Pos(r.Do.Pos()), sprintf("%d functions reachable from Do, no go statement", n))
+	}
 }
